@@ -12,6 +12,9 @@ Workload (generated, well-posed by construction; reference models in vlib/refs/c
                 pass-through on the scipy entry point the wrapper looks up at call time
   cg_floor      CGLS / PCGLS with tol = 1e-14 / 1e-16 (below the attainable accuracy) started 1e-2 / 1e-6 from the solution:
                 a run that stops before maxit must still return the solution
+  views         CGLS / PCGLS / FISTA / ISTA with function operators that return their argument, a numpy view of it (slice,
+                truncation, reversal, reshape) or one re-used buffer, LM with residual/Jacobian functions writing into re-used
+                buffers: must equal the matrix form / stay stationary; b, x0, A, P bitwise unchanged; solve() twice agrees
   prox          the three shipped maps against a brute-force 1-D grid argmin and their variational inequality
 Monitors/oracles: residual of the optimality system recomputed independently at the returned point of
 converged runs (iteration count < maxit; otherwise the run is inconclusive), dense reference solutions,
@@ -41,7 +44,7 @@ REQUIRED_COUNTERS = {
               "fista_objective_probes": 13000, "fista_step_trace_checked": 9000, "lm_stationarity_checked": 18,
               "lm_stationarity_checked_dense": 8, "lm_stationarity_checked_sparse": 8, "wrapper_result_fields_checked": 450,
               "wrapper_forwarded_args_checked": 100, "wrapper_optimality_checked": 45, "prox_grid_checked": 1600,
-              "prox_vi_checked": 8000, "cg_floor_stopped_runs_checked": 120, "wrapper_unreported_field_checked": 10},
+              "prox_vi_checked": 8000, "cg_floor_stopped_runs_checked": 120, "view_callable_identity_checked": 35, "arguments_unchanged_checked": 80, "solver_reuse_checked": 35, "wrapper_unreported_field_checked": 10},
     "thorough": {"normal_eq_checked": 900, "normal_eq_checked_CGLS": 450, "normal_eq_checked_PCGLS_explicit_sym": 110,
                  "normal_eq_checked_PCGLS_explicit_nonsym": 110, "normal_eq_checked_PCGLS_spsolve_sym": 110,
                  "normal_eq_checked_PCGLS_spsolve_nonsym": 110, "ne_reference_solution_checked": 700,
@@ -50,7 +53,7 @@ REQUIRED_COUNTERS = {
                  "fista_objective_probes": 40000, "fista_step_trace_checked": 30000, "lm_stationarity_checked": 60,
                  "lm_stationarity_checked_dense": 30, "lm_stationarity_checked_sparse": 30, "wrapper_result_fields_checked": 1300,
                  "wrapper_forwarded_args_checked": 280, "wrapper_optimality_checked": 140, "prox_grid_checked": 5000,
-                 "prox_vi_checked": 25000, "cg_floor_stopped_runs_checked": 500, "wrapper_unreported_field_checked": 30}}
+                 "prox_vi_checked": 25000, "cg_floor_stopped_runs_checked": 500, "view_callable_identity_checked": 140, "arguments_unchanged_checked": 300, "solver_reuse_checked": 140, "wrapper_unreported_field_checked": 30}}
 BUDGET_S = {"quick": 600.0, "thorough": 2400.0}
 
 MIN_METHODS = [None, "BFGS", "CG", "L-BFGS-B", "TNC", "SLSQP", "Newton-CG", "trust-constr", "Nelder-Mead", "Powell", "COBYLA"]
@@ -93,6 +96,15 @@ def cases(tier, seed):
                 for offset in (1e-2, 1e-6):
                     for size in ("tiny", "small"):
                         out.append({"kind": "cg_floor", "solver": solver, "tol": tol, "offset": offset, "size": size, "rep": rep})
+    # ---- callables that return views of their argument / the same preallocated buffer; solver objects used twice
+    for rep in range(2 if quick else 8):
+        for solver in ("CGLS", "PCGLS", "FISTA", "ISTA"):
+            for op in ("identity", "slice", "truncate", "reverse", "reshape", "buffer"):
+                out.append({"kind": "views", "solver": solver, "op": op, "n": rg.randint(4, 41), "shift": rg.choice(["zero", "pos"]),
+                            "prox": rg.choice(["l1", "nonneg", "box"]), "x0": rg.choice(["zero", "random"]), "rep": rep})
+        for op in ("identity_view", "buffer_r", "buffer_J", "buffer_both", "cached_J"):
+            for name in (("linear",) if op in ("identity_view", "cached_J") else R.NLS_NAMES):
+                out.append({"kind": "views", "solver": "LM", "op": op, "problem": name, "sparse": False, "rep": rep})
     # ---- PCGLS
     for rep in range(2 if quick else 6):
         for shape in ("over", "under", "square"):
@@ -186,7 +198,7 @@ def _units(case, rg, precond=False):
         case["cond"] = min(case["cond"], 100)
 
 def crash_config(case):
-    return {k: case[k] for k in ("kind", "solver", "method", "shape", "shift", "mat", "pkind", "path", "prox", "adaptive", "size",
+    return {k: case[k] for k in ("kind", "solver", "method", "shape", "shift", "mat", "pkind", "path", "prox", "adaptive", "size", "op",
                                  "problem", "sparse", "op", "variant") if k in case}
 
 # --------------------------------------------------------------------------- helpers
@@ -384,6 +396,170 @@ def _run_cg_floor(case, ctx):
                           detail=f"{case['solver']} m={m} n={n} tol={tol} start {case['offset']:g} from the solution: stopped after k={k} < maxit={maxit} "
                                  f"with ||x|| = {_norm(x):.3e}, ||x - x_ref|| = {err:.3e} (||x_ref|| = {_norm(xs):.3e})")
     ctx.nontrivial()
+
+def _view_operator(op, n, rs):
+    """(matrix, callable) of the same linear map; the callable returns its argument, a numpy VIEW of it, or one and the
+    same preallocated buffer on every call - all of which a user-supplied forward/adjoint function may legitimately do."""
+    I = np.eye(n)
+    if op in ("identity", "reshape"):
+        M = I
+        if op == "identity":
+            f = lambda v, flag: v
+        else:
+            f = lambda v, flag: v.reshape(1, -1)[0]
+    elif op == "reverse":
+        M = I[::-1].copy()
+        f = lambda v, flag: v[::-1]
+    elif op in ("slice", "truncate"):
+        M = (I[::2] if op == "slice" else I[: max(2, (2 * n) // 3)]).copy()
+        mm = M.shape[0]
+        bufn = np.zeros(n)
+        def f(v, flag):
+            if flag == 1:
+                return v[::2] if op == "slice" else v[:mm]
+            bufn[:] = 0.0                       # adjoint: zero padding, written into a re-used buffer
+            if op == "slice":
+                bufn[::2] = v
+            else:
+                bufn[:mm] = v
+            return bufn
+    elif op == "buffer":
+        mm = n + int(rs.randint(0, 10))
+        M = R.dense_matrix(rs, mm, n, 30.0)
+        bm, bn = np.zeros(mm), np.zeros(n)
+        def f(v, flag):
+            if flag == 1:
+                np.dot(M, v, out=bm); return bm
+            np.dot(M.T, v, out=bn); return bn
+    else:
+        raise ValueError(op)
+    return M, f
+
+def _run_views(case, ctx):
+    """User callables that return views / re-used buffers must give what the matrix form gives; arguments stay untouched;
+    a solver object can be solved twice."""
+    import scipy.sparse as sps_
+    from cuqi.solver import FISTA, LM, ProximalL1, ProjectNonnegative, ProjectBox
+    from cuqi.solver._solver import CGLS, PCGLS
+    rs = core.np_rng(ctx.seed, PROPERTY, core.canon(case))
+    solver, op = case["solver"], case["op"]
+    cfg = {"solver": solver, "operator": op}
+    if solver == "LM":
+        name = case["problem"]
+        pb = R.nls_problem(name, rs)
+        if op == "identity_view":
+            n = pb.n
+            Ic = np.eye(n)
+            pbv = R.NLS("identity", (lambda x: x), (lambda x: Ic), pb.x0 + 1.0, n, n)
+            rf, Jf, pb = (lambda x: x), (lambda x: Ic), pbv          # r returns its argument itself, J one cached array
+        else:
+            rbuf, Jbuf = np.zeros(pb.m), np.zeros((pb.m, pb.n))
+            Jconst = pb.J(pb.x0).copy()
+            def r_b(x):
+                np.copyto(rbuf, pb.r(x)); return rbuf
+            def J_b(x):
+                np.copyto(Jbuf, pb.J(x)); return Jbuf
+            rf = r_b if op in ("buffer_r", "buffer_both") else pb.r
+            Jf = J_b if op in ("buffer_J", "buffer_both") else ((lambda x: Jconst) if op == "cached_J" else pb.J)
+        x0 = pb.x0.copy(); x0_snap = x0.copy()
+        with np.errstate(all="ignore"):
+            ka, va = core.outcome(lambda: LM(pb.r, pb.x0.copy(), pb.J, maxit=3000, gradtol=1e-8, sparse=False).solve())
+            obj = LM(rf, x0, Jf, maxit=3000, gradtol=1e-8, sparse=False)
+            kb, vb = core.outcome(obj.solve)
+            kc, vc = core.outcome(obj.solve)
+        ctx.count("views_runs")
+        if "refused" in (ka, kb, kc) or "crashed" in (ka, kb, kc):
+            if ka == "value":
+                ctx.violation("view_callable_mismatch", dict(cfg, what="exception"), detail=f"fresh-array functions: value; {op}: {vb!r} / {vc!r}")
+            else:
+                ctx.refused("LM", va)
+            return
+        ctx.count("arguments_unchanged_checked")
+        if not np.array_equal(x0, x0_snap):
+            ctx.violation("argument_modified", dict(cfg, argument="x0"), detail="x0 was modified by LM.solve()")
+        (xa, ia), (xb, ib), (xc_, ic) = va, vb, vc
+        xa, xb, xc_ = (np.array(v, dtype=float, copy=True).ravel() for v in (xa, xb, xc_))
+        ctx.count("solver_reuse_checked")
+        if not (np.array_equal(xb, xc_, equal_nan=True) and ib["nfev"] == ic["nfev"]):
+            ctx.violation("solver_reuse_mismatch", cfg, detail=f"second solve() on the same LM object: nfev {ib['nfev']} -> {ic['nfev']}, ||dx|| = {_norm(xb-xc_):.3e}")
+        ctx.count("view_callable_identity_checked")
+        g0 = _norm(pb.J(pb.x0).T @ pb.r(pb.x0))
+        gb = _norm(pb.J(xb).T @ pb.r(xb)) if np.all(np.isfinite(xb)) else np.inf
+        same = ia["nfev"] == ib["nfev"] and np.all(np.isfinite(xb)) and _norm(xa - xb) <= 1e-9 * (1 + _norm(xa))
+        if not same:
+            ctx.count("lm_buffer_trajectory_differs")      # recorded only: the property speaks about the returned point
+        if not np.all(np.isfinite(xb)):
+            ctx.violation("nonfinite_solution", dict(cfg, stopped_before_maxit=bool(ib["nfev"] < 3000)),
+                          detail=f"{pb.name}: functions returning {op}: LM returned {xb.tolist()} (fresh arrays: {xa.tolist()})")
+        elif ib["nfev"] < 3000:
+            Jb, rb = pb.J(xb), pb.r(xb)
+            nJ = max(float(np.linalg.norm(Jb, 2)), float(np.linalg.norm(pb.J(pb.x0), 2)))
+            allow = 1e-8 * g0 * (1 + 1e-6) + 1e-5 * nJ * _norm(rb) + 1e-10 * nJ * _norm(pb.r(pb.x0))
+            ctx.count("lm_stationarity_checked")
+            if gb > allow:
+                ctx.violation("not_stationary", dict(cfg, stagnated=False),
+                              detail=f"{pb.name}: functions returning {op}: nfev={ib['nfev']} x={xb.tolist()} ||J^T r||/||J0^T r0|| = {gb/g0:.3e} "
+                                     f"(fresh arrays: nfev={ia['nfev']} x={xa.tolist()})")
+        ctx.nontrivial()
+        return
+
+    n = int(case["n"])
+    M, f = _view_operator(op, n, rs)
+    m = M.shape[0]
+    b = rs.standard_normal(m) * 2.0
+    x0 = np.zeros(n) if case["x0"] == "zero" else rs.standard_normal(n)
+    b_snap, x0_snap, M_snap = b.copy(), x0.copy(), M.copy()
+    smax = float(R.svals(M)[0])
+    if solver in ("CGLS", "PCGLS"):
+        shift = 0.0 if case["shift"] == "zero" else 0.3 * smax ** 2
+        tol, maxit = 1e-9, 25 * max(m, n) + 400
+        P = R.preconditioner(rs, n, "general") if solver == "PCGLS" else None
+        P_snap = None if P is None else P.toarray().copy()
+        mk = (lambda A_: CGLS(A_, b, x0, maxit, tol, shift)) if solver == "CGLS" else (lambda A_: PCGLS(A_, b, x0, P, maxit, tol, shift))
+        def optimal(x, k):
+            Pd = None if P is None else P_snap
+            g, g0 = R.ne_residual(M_snap, b_snap, x, shift, Pd), R.ne_residual(M_snap, b_snap, x0_snap, shift, Pd)
+            return k < maxit and _norm(g) <= 1.01 * tol * _norm(g0) + 1e-12 * (_norm(b_snap) + _norm(x)) * max(1.0, smax) ** 2
+    else:
+        kind = case["prox"]
+        lam = 0.3
+        t = 0.9 / smax ** 2
+        abstol, maxit = 1e-9, 30000
+        lo, hi = (-0.3, 0.4) if kind == "box" else (None, None)
+        prox = (lambda z, g: ProximalL1(z, lam * g)) if kind == "l1" else (lambda z, g: ProjectNonnegative(z)) if kind == "nonneg" else \
+            (lambda z, g: ProjectBox(z, lo, hi))
+        cfg["prox"] = kind
+        P, P_snap = None, None
+        mk = lambda A_: FISTA(A_, b, x0, prox, maxit=maxit, stepsize=t, abstol=abstol, adaptive=(solver == "FISTA"))
+        def optimal(x, k):
+            return k < maxit and _norm(x - R.prox_grad_map(M_snap, b_snap, x, t, kind, lam, lo, hi)) <= 10 * abstol + 1e-11 * (1 + _norm(x))
+    xm, km = mk(M).solve()
+    obj = mk(f)
+    xf, kf = obj.solve()
+    xf = np.array(xf, dtype=float, copy=True)
+    xf2, kf2 = obj.solve()
+    xm, xf2 = np.asarray(xm, dtype=float), np.asarray(xf2, dtype=float)
+    ctx.count("views_runs")
+    ctx.count("arguments_unchanged_checked", 3 + (P is not None))
+    for nm, now, snap in (("b", b, b_snap), ("x0", x0, x0_snap), ("A", M, M_snap)) + ((("P", P.toarray(), P_snap),) if P is not None else ()):
+        if not np.array_equal(now, snap):
+            ctx.violation("argument_modified", dict(cfg, argument=nm), detail=f"{nm} was modified by {solver}.solve() (max change {np.max(np.abs(now-snap)):.3e})")
+    ctx.count("solver_reuse_checked")
+    if int(kf) != int(kf2) or not np.array_equal(xf, xf2, equal_nan=True):
+        ctx.violation("solver_reuse_mismatch", cfg, detail=f"second solve() on the same object: k {kf} -> {kf2}, ||dx|| = {_norm(xf-xf2) if xf.shape==xf2.shape else 'shape'}")
+    okm, okf = optimal(xm, int(km)), bool(np.all(np.isfinite(xf))) and optimal(xf, int(kf))
+    if int(km) >= maxit:
+        ctx.inconclusive(f"{solver} reached maxit on a view operator ({op})"); return
+    ctx.count("view_callable_identity_checked")
+    if int(km) != int(kf) or xm.shape != xf.shape or not (_norm(xm - xf) <= 1e-9 * (1 + _norm(xm))):
+        ctx.violation("view_callable_mismatch", dict(cfg, still_optimal=bool(okf)),
+                      detail=f"n={n} m={m}: matrix form k={km}; function form returning {op}: k={kf}, ||dx|| = "
+                             f"{_norm(xm-xf) if xm.shape==xf.shape else 'shape'}; function-form result optimal: {okf}")
+    elif not okf:
+        ctx.violation("not_a_fixed_point" if solver in ("FISTA", "ISTA") else "normal_equations_residual", dict(cfg, form="view_callable"),
+                      detail=f"n={n} m={m} operator {op}: returned point does not satisfy the optimality condition")
+    if okm:
+        ctx.nontrivial()
 
 def _track(ctx, key, value):
     """keep the running maximum of a margin statistic in the notes (diagnostic only)"""
@@ -696,7 +872,8 @@ def _run_lm(case, ctx):
             ctx.count("lm_stopped_at_fp_floor")
             ctx.nontrivial("lm_fp_floor")
             return
-        ctx.violation("not_stationary", dict(cfg, stagnated=bool(stagnated)),
+        ctx.violation("not_stationary", dict(cfg, stagnated=bool(stagnated),
+                                             damping_floor_dominates=bool(float(case["nu0"]) > float(np.linalg.norm(J1, 2)) ** 2)),
                       detail=f"{pb.name}: ||J^T r|| / ||J0^T r0|| = {g1/g0:.3e} > gradtol = {gradtol} after {nfev} < maxit iterations"
                              f" (||J^T r|| = {g1:.3e}, floating-point floor allowance {fp_tol:.3e}, trace stagnated: {stagnated})")
         return
@@ -1052,6 +1229,8 @@ def run_case(case, ctx):
         _run_ne(case, ctx)
     elif k == "cg_floor":
         _run_cg_floor(case, ctx)
+    elif k == "views":
+        _run_views(case, ctx)
     elif k == "fista":
         _run_fista(case, ctx)
     elif k in ("lm", "lm_explicit"):
